@@ -1,0 +1,60 @@
+//! Verification hooks, compiled only with the cargo feature `verif`.
+//!
+//! A per-thread logical clock that replaces `Instant` at the planners' deadline checks, so that a
+//! verification harness decides how many iterations a call performs and where the deadline lands.
+//! Nothing here is reachable with the feature off.
+
+use std::cell::Cell;
+use std::time::Duration;
+
+thread_local! {
+    static NOW_NS: Cell<u64> = const { Cell::new(0) };
+    static TICK_NS: Cell<u64> = const { Cell::new(1_000_000) };
+    static READS: Cell<u64> = const { Cell::new(0) };
+}
+
+/// Logical stand-in for `Instant`: `elapsed()` reports logical time since `now()` and then
+/// advances the clock by one tick.
+#[derive(Clone, Copy, Debug)]
+pub struct VirtualInstant(u64);
+
+impl VirtualInstant {
+    pub fn now() -> Self {
+        VirtualInstant(NOW_NS.with(|n| n.get()))
+    }
+
+    pub fn elapsed(&self) -> Duration {
+        READS.with(|r| r.set(r.get() + 1));
+        let now = NOW_NS.with(|n| n.get());
+        let tick = TICK_NS.with(|t| t.get());
+        NOW_NS.with(|n| n.set(now.saturating_add(tick)));
+        Duration::from_nanos(now.saturating_sub(self.0))
+    }
+}
+
+/// Reset the calling thread's clock: time 0, the given tick per `elapsed()` read, zero reads.
+pub fn clock_reset(tick_ns: u64) {
+    NOW_NS.with(|n| n.set(0));
+    TICK_NS.with(|t| t.set(tick_ns));
+    READS.with(|r| r.set(0));
+}
+
+/// Advance the calling thread's clock (callable from inside user callbacks).
+pub fn clock_advance(ns: u64) {
+    NOW_NS.with(|n| n.set(n.get().saturating_add(ns)));
+}
+
+/// Change the tick without touching the time.
+pub fn clock_set_tick(tick_ns: u64) {
+    TICK_NS.with(|t| t.set(tick_ns));
+}
+
+/// Number of `elapsed()` reads on this thread since the last reset.
+pub fn clock_reads() -> u64 {
+    READS.with(|r| r.get())
+}
+
+/// Current logical time in nanoseconds.
+pub fn clock_now_ns() -> u64 {
+    NOW_NS.with(|n| n.get())
+}
